@@ -480,7 +480,7 @@ Qed.
 Lemma dict_set_header_key h name v : dict_set (header_key h name) v h = put_ci name v h.
 Proof.
   induction h as [|[k v'] t IH]; cbn [header_key dict_set put_ci].
-  - now rewrite bytes_eqb_refl.
+  - reflexivity.
   - destruct (bytes_eqb (lower k) (lower name)) eqn:E.
     + cbn [dict_set]. now rewrite bytes_eqb_refl.
     + cbn [dict_set].
@@ -609,4 +609,485 @@ Proof.
   - destruct (IH Hd Hg) as (h1 & hn & h2 & -> & E1 & N1 & N2).
     exists ((k, v0) :: h1), hn, h2. repeat split; try assumption.
     cbn [lkeys map fst In]. fold (lkeys h1). tauto.
+Qed.
+
+(* ---- the builders put on the wire exactly the header map of their specification ---- *)
+Lemma req_tail_spec (ua : bytes) (h1 : bdict) (bd : option bytes) (noua close : bool) :
+  (let h2 := if truthy bd && negb (has_key_ci TRANSFER_ENCODING h1)
+             then dict_set (header_key h1 H_CONTENT_LENGTH) (bytes_of_N (len (or_empty bd))) h1 else h1 in
+   let h3 := if negb (has_key_ci L_USER_AGENT h1) && negb noua then dict_set H_USER_AGENT ua h2 else h2 in
+   if close then dict_set (header_key h3 H_CONNECTION) V_CLOSE h3 else h3) =
+  (let h2 := if truthy bd && negb (has_key_ci TRANSFER_ENCODING h1)
+             then put_ci H_CONTENT_LENGTH (dec_of_N (len (or_empty bd))) h1 else h1 in
+   let h3 := if negb (has_key_ci L_USER_AGENT h1) && negb noua then h2 ++ [(H_USER_AGENT, ua)] else h2 in
+   if close then put_ci H_CONNECTION V_CLOSE h3 else h3).
+Proof.
+  cbv zeta. unfold bytes_of_N.
+  assert (UAnew : forall v, has_key_ci L_USER_AGENT h1 = false ->
+            ~ In (lower H_USER_AGENT) (lkeys h1) /\ ~ In (lower H_USER_AGENT) (lkeys (put_ci H_CONTENT_LENGTH v h1))).
+  { intros v U. apply has_key_ci_false in U. change (lower H_USER_AGENT) with L_USER_AGENT. split; [exact U|].
+    rewrite lkeys_put_ci. destruct (has_key_ci (lower H_CONTENT_LENGTH) h1); [exact U|].
+    intros C. apply in_app_or in C as [C|[C|[]]]; [now apply U|discriminate C]. }
+  destruct (truthy bd && negb (has_key_ci TRANSFER_ENCODING h1)) eqn:B;
+    destruct (has_key_ci L_USER_AGENT h1) eqn:U; destruct noua; destruct close; cbn [negb andb];
+    rewrite ?dict_set_header_key; try reflexivity;
+    destruct (UAnew (dec_of_N (len (or_empty bd))) eq_refl) as [U1 U2];
+    rewrite dict_set_new_ci by assumption; reflexivity.
+Qed.
+
+Lemma request_headers_spec ua a :
+  pkt_headers (Some (request_headers ua (ra_ctype a) (ra_headers a) (ra_body a) (ra_noua a))) (ra_close a)
+  = expected_request_headers ua a.
+Proof.
+  unfold pkt_headers, request_headers, expected_request_headers, arg_headers.
+  set (h0 := match ra_headers a with Some d => d | None => [] end).
+  destruct (ra_ctype a) as [ct|].
+  - rewrite (dict_set_header_key h0 H_CONTENT_TYPE ct).
+    exact (req_tail_spec ua (put_ci H_CONTENT_TYPE ct h0) (ra_body a) (ra_noua a) (ra_close a)).
+  - exact (req_tail_spec ua h0 (ra_body a) (ra_noua a) (ra_close a)).
+Qed.
+
+Lemma response_headers_spec a :
+  pkt_headers (Some (response_headers (sa_headers a) (sa_body a) (sa_nocl a))) (sa_close a)
+  = expected_response_headers a.
+Proof.
+  unfold pkt_headers, response_headers, expected_response_headers, arg_headers.
+  set (h0 := match sa_headers a with Some d => d | None => [] end). unfold bytes_of_N.
+  destruct (negb (has_key_ci TRANSFER_ENCODING h0) && negb (sa_nocl a)); destruct (sa_close a);
+    rewrite ?dict_set_header_key; reflexivity.
+Qed.
+
+Lemma header_lines_render hs : header_lines hs = render_hdrs hs.
+Proof.
+  unfold render_hdrs. induction hs as [|[k v] t IH]; [reflexivity|].
+  cbn [header_lines map concat]. rewrite IH. unfold build_http_header, render_hdr. cbn [fst snd app].
+  now rewrite <- !app_assoc.
+Qed.
+
+(* ---- from the boolean domain to the hypotheses of the parser lemmas ---- *)
+Lemma no_crlf_cr l : no_crlf l = true -> ~ In CR l.
+Proof. intros H Hi. pose proof (forallb_In _ _ _ H Hi) as C. discriminate C. Qed.
+Lemma no_crlf_lf l : no_crlf l = true -> ~ In LF l.
+Proof. intros H Hi. pose proof (forallb_In _ _ _ H Hi) as C. discriminate C. Qed.
+Lemma no_sp_sp l : no_sp l = true -> ~ In SP l.
+Proof. intros H Hi. pose proof (forallb_In _ _ _ H Hi) as C. discriminate C. Qed.
+
+Lemma stripped_strip l : stripped l = true -> strip l = l.
+Proof.
+  intros H. apply strip_ends. destruct l as [|x t]; [exact I|].
+  unfold stripped in H. apply andb_true_iff in H as [H1 H2]. now apply negb_true_iff in H1, H2.
+Qed.
+
+Lemma ok_header_hdr_ok kv : ok_header kv = true -> hdr_ok kv.
+Proof.
+  unfold ok_header, ok_name, ok_value, hdr_ok. intros H.
+  apply andb_true_iff in H as [Hn Hv]. apply andb_true_iff in Hv as [Hv1 Hv2].
+  apply andb_true_iff in Hn as [Hn Hn4]. apply andb_true_iff in Hn as [Hn Hn3].
+  apply andb_true_iff in Hn as [Hn1 Hn2].
+  repeat apply conj.
+  - now apply nonempty_ne.
+  - now apply stripped_strip.
+  - now apply stripped_strip.
+  - intros Hi. pose proof (forallb_In _ _ _ Hn3 Hi) as C. discriminate C.
+  - now apply no_crlf_cr.
+  - now apply no_crlf_cr.
+Qed.
+
+Definition lift1 (kv : bytes * bytes) : bytes * (bytes * bytes) := (lower (fst kv), (fst kv, snd kv)).
+
+Lemma fold_hd_add hs : forall acc, NoDup (dict_keys acc ++ lkeys hs) ->
+  fold_left hd_add hs acc = acc ++ map lift1 hs.
+Proof.
+  induction hs as [|[k v] t IH]; intros acc H; cbn [fold_left map]; [now rewrite app_nil_r|].
+  unfold hd_add at 2. cbn [fst].
+  assert (Hn : ~ In (lower k) (dict_keys acc)).
+  { cbn [lkeys map fst] in H. intros C. apply NoDup_remove_2 in H. apply H. apply in_or_app. now left. }
+  rewrite dict_set_new by exact Hn. rewrite IH.
+  - unfold lift1 at 2. cbn [fst snd]. now rewrite <- app_assoc.
+  - unfold dict_keys in *. rewrite map_app. cbn [map fst]. rewrite <- app_assoc. exact H.
+Qed.
+
+Lemma add_all_lift hs : NoDup (lkeys hs) -> add_all None hs = lift_headers hs.
+Proof.
+  intros H. rewrite add_all_spec. unfold lift_headers. destruct hs as [|kv t]; [reflexivity|].
+  rewrite fold_hd_add by exact H. reflexivity.
+Qed.
+
+(* how the header map frames the bytes that follow the blank line *)
+Definition framing_rel (hs : bdict) (wire decoded : bytes) : Prop :=
+  match get_ci TRANSFER_ENCODING hs with
+  | Some te => lower te = CHUNKED /\ get_ci CONTENT_LENGTH hs = None /\
+               exists s, wf_chunked s = true /\ wire = render_chunked s /\ decoded = ref_dechunk s
+  | None => match get_ci CONTENT_LENGTH hs with
+            | Some cl => int10 cl = Ok (Z.of_nat (length wire)) /\ decoded = wire
+            | None => wire = [] /\ decoded = []
+            end
+  end.
+
+Lemma others_ok (h : bdict) : forallb ok_header h = true ->
+  ~ In CONTENT_LENGTH (lkeys h) -> ~ In TRANSFER_ENCODING (lkeys h) -> Forall other_ok h.
+Proof.
+  intros H N1 N2. apply Forall_forall. intros kv Hi. split; [apply ok_header_hdr_ok, (forallb_In _ _ _ H Hi)|].
+  split; intros C; [apply N1|apply N2]; rewrite <- C; unfold lkeys; apply in_map_iff; exists kv; now split.
+Qed.
+
+Lemma forallb_app_inv {A} (f : A -> bool) a b : forallb f (a ++ b) = true -> forallb f a = true /\ forallb f b = true.
+Proof. rewrite forallb_app. apply andb_true_iff. Qed.
+
+Lemma lkeys_app a b : lkeys (a ++ b) = lkeys a ++ lkeys b.
+Proof. unfold lkeys. apply map_app. Qed.
+
+(* every framed header map + body is a message of Http/ParserFacts.v *)
+Lemma to_message sl hs wire decoded : wfh hs -> framing_rel hs wire decoded ->
+  exists m, m_start m = sl /\ all_hdrs m = hs /\ framing_bytes (m_framing m) = wire /\
+            Forall other_ok (m_hs1 m) /\ ParserFacts.framing_ok (m_framing m) /\ Forall other_ok (m_hs2 m) /\
+            match m_framing m with
+            | FNone => decoded = [] /\ get_ci TRANSFER_ENCODING hs = None
+            | FLength _ _ bd => decoded = bd /\ get_ci TRANSFER_ENCODING hs = None
+            | FChunked _ _ s => decoded = stream_body s /\ get_ci TRANSFER_ENCODING hs <> None
+            end.
+Proof.
+  intros [Hok Hnd] Hf. unfold framing_rel in Hf.
+  destruct (get_ci TRANSFER_ENCODING hs) as [te|] eqn:TE.
+  - destruct Hf as (Hte & Hcl & s & Ws & -> & ->).
+    destruct (split_at_ci _ _ _ Hnd TE) as (h1 & hn & h2 & -> & E1 & N1 & N2).
+    apply get_ci_none in Hcl. rewrite lkeys_app in Hcl. cbn [lkeys map fst] in Hcl. fold (lkeys h2) in Hcl.
+    apply forallb_app_inv in Hok as [Ho1 Ho2]. cbn [forallb] in Ho2. apply andb_true_iff in Ho2 as [Hoh Ho2].
+    exists {| m_start := sl; m_hs1 := h1; m_framing := FChunked hn te (stream_of s); m_hs2 := h2 |}.
+    cbn [m_start m_hs1 m_framing m_hs2 framing_bytes].
+    refine (conj _ (conj _ (conj _ (conj _ (conj _ (conj _ _)))))).
+    + reflexivity.
+    + reflexivity.
+    + apply render_stream_of.
+    + apply others_ok; [exact Ho1| |exact N1]. intros C. apply Hcl. apply in_or_app. now left.
+    + cbn [ParserFacts.framing_ok]. refine (conj _ (conj _ (conj _ _)));
+        [now apply ok_header_hdr_ok|exact E1|exact Hte|now apply wf_chunked_stream_ok].
+    + apply others_ok; [exact Ho2| |exact N2]. intros C. apply Hcl. apply in_or_app. right. now right.
+    + split; [symmetry; apply stream_body_of|congruence].
+  - destruct (get_ci CONTENT_LENGTH hs) as [cl|] eqn:CL.
+    + destruct Hf as (Hi & ->).
+      destruct (split_at_ci _ _ _ Hnd CL) as (h1 & hn & h2 & -> & E1 & N1 & N2).
+      apply get_ci_none in TE. rewrite lkeys_app in TE. cbn [lkeys map fst] in TE. fold (lkeys h2) in TE.
+      apply forallb_app_inv in Hok as [Ho1 Ho2]. cbn [forallb] in Ho2. apply andb_true_iff in Ho2 as [Hoh Ho2].
+      exists {| m_start := sl; m_hs1 := h1; m_framing := FLength hn cl wire; m_hs2 := h2 |}.
+      cbn [m_start m_hs1 m_framing m_hs2 framing_bytes].
+    refine (conj _ (conj _ (conj _ (conj _ (conj _ (conj _ _)))))).
+      * reflexivity.
+      * reflexivity.
+      * reflexivity.
+      * apply others_ok; [exact Ho1|exact N1|]. intros C. apply TE. apply in_or_app. now left.
+      * cbn [ParserFacts.framing_ok]. refine (conj _ (conj _ _)); [now apply ok_header_hdr_ok|exact E1|exact Hi].
+      * apply others_ok; [exact Ho2|exact N2|]. intros C. apply TE. apply in_or_app. right. now right.
+      * split; reflexivity.
+    + destruct Hf as (-> & ->). pose proof TE as TE0. apply get_ci_none in TE, CL.
+      exists {| m_start := sl; m_hs1 := hs; m_framing := FNone; m_hs2 := [] |}.
+      cbn [m_start m_hs1 m_framing m_hs2 framing_bytes].
+      refine (conj _ (conj _ (conj _ (conj _ (conj _ (conj _ _)))))); try reflexivity.
+      * unfold all_hdrs. cbn [m_hs1 m_framing m_hs2 framing_hdrs app]. apply app_nil_r.
+      * now apply others_ok.
+      * constructor.
+      * split; reflexivity.
+Qed.
+
+Definition sl_type (sl : start_line) : ptype :=
+  match sl with ReqLine _ _ _ _ => REQUEST_PARSER | StatusLine _ _ _ => RESPONSE_PARSER end.
+
+(* the start-line fields a parser must report *)
+Definition start_fields (sl : start_line) (p : parser) : Prop :=
+  match sl with
+  | ReqLine mt tg v u =>
+      let tn := bytes_eqb mt CONNECT in
+      method p = Some mt /\ purl p = Some u /\ version p = Some v /\ is_https_tunnel p = tn /\
+      (host p, port p, path p) = line_attributes tn u /\ code p = None /\ reason p = None
+  | StatusLine v c rs =>
+      version p = Some v /\ code p = Some c /\ reason p = rs /\ method p = None /\
+      host p = None /\ port p = None /\ path p = None
+  end.
+
+(* KEY LEMMA: a rendered start line + header map + framed body parses, in one piece, to a COMPLETE
+   message with exactly these fields, and nothing is left over *)
+Lemma parse_rendered sl hs wire decoded :
+  start_ok DEFAULT_ALLOWED_URL_SCHEMES sl -> wfh hs -> framing_rel hs wire decoded ->
+  exists p, parse (new_parser (sl_type sl)) (render_start sl ++ CRLF ++ render_hdrs hs ++ CRLF ++ wire) = Ok p /\
+            state p = COMPLETE /\ buffer p = None /\ start_fields sl p /\
+            headers p = lift_headers hs /\ bodyb p = decoded /\
+            is_chunked_encoded p = match get_ci TRANSFER_ENCODING hs with Some _ => true | None => false end.
+Proof.
+  intros Hs Hw Hf. destruct (to_message sl hs wire decoded Hw Hf) as (m & E1 & E2 & E3 & O1 & Of & O2 & Hb).
+  assert (Hm : message_ok DEFAULT_ALLOWED_URL_SCHEMES m) by (unfold message_ok; rewrite E1; tauto).
+  assert (Ht : tail_ok m []) by (unfold tail_ok; destruct (m_start m); destruct (m_framing m); exact I || reflexivity).
+  pose proof (complete_at_end _ m [] Hm Ht) as P.
+  assert (Er : render m ++ [] = render_start sl ++ CRLF ++ render_hdrs hs ++ CRLF ++ wire).
+  { rewrite app_nil_r. unfold render. now rewrite E1, E2, E3. }
+  rewrite Er in P. assert (Ety : msg_type m = sl_type sl) by (unfold msg_type; now rewrite E1).
+  rewrite Ety in P. exists (expected m []). split; [exact P|].
+  destruct (expected_fields m []) as (F1 & F2 & _ & F4 & F5 & F6).
+  split; [exact F1|]. split; [exact F2|]. split; [unfold start_fields; rewrite <- E1; exact F6|].
+  split; [rewrite F4, E2; apply add_all_lift, Hw|].
+  split.
+  - unfold bodyb. rewrite F5. destruct (m_framing m) as [|hn hv bd|hn hv s]; destruct Hb as [-> _]; try reflexivity.
+    apply optb_inv.
+  - unfold expected, final_of.
+    destruct (m_framing m) as [|hn hv [|b0 bd]|hn hv s]; destruct Hb as [_ Hb];
+      cbn [set_buffer_size set_state set_headers set_body set_chunk is_chunked_encoded];
+      try (rewrite Hb; reflexivity).
+    destruct (get_ci TRANSFER_ENCODING hs); [reflexivity|congruence].
+Qed.
+
+(* ===================================================================================== *)
+(* parse (build args) = args                                                              *)
+
+Definition cond_put (b : bool) (name v : bytes) (h : bdict) : bdict := if b then put_ci name v h else h.
+
+Lemma wfh_cond_put b name v h : wfh h -> ok_name name = true -> (b = true -> ok_value v = true) -> wfh (cond_put b name v h).
+Proof. intros H Hn Hv. destruct b; [apply wfh_put_ci; auto|exact H]. Qed.
+
+Lemma get_ci_cond_put ln b name v h :
+  get_ci ln (cond_put b name v h) = if b && bytes_eqb ln (lower name) then Some v else get_ci ln h.
+Proof. destruct b; cbn [cond_put andb]; [apply get_ci_put_ci|reflexivity]. Qed.
+
+Lemma has_key_ci_get ln h : has_key_ci ln h = match get_ci ln h with Some _ => true | None => false end.
+Proof.
+  destruct (get_ci ln h) eqn:E.
+  - apply has_key_ci_lkeys. eapply get_ci_some_in; eassumption.
+  - apply has_key_ci_false. now apply get_ci_none.
+Qed.
+
+(* the specification header map as a sequence of conditional "set header" steps *)
+Lemma expected_request_headers_puts ua a :
+  let h0 := arg_headers (ra_headers a) in
+  let h1 := match ra_ctype a with Some ct => put_ci H_CONTENT_TYPE ct h0 | None => h0 end in
+  expected_request_headers ua a =
+  cond_put (ra_close a) H_CONNECTION V_CLOSE
+    (cond_put (negb (has_key_ci L_USER_AGENT h1) && negb (ra_noua a)) H_USER_AGENT ua
+       (cond_put (truthy (ra_body a) && negb (has_key_ci TRANSFER_ENCODING h1)) H_CONTENT_LENGTH
+                 (dec_of_N (len (or_empty (ra_body a)))) h1)).
+Proof.
+  cbv zeta. unfold expected_request_headers.
+  set (h1 := match ra_ctype a with Some ct => put_ci H_CONTENT_TYPE ct (arg_headers (ra_headers a)) | None => _ end).
+  fold (cond_put (truthy (ra_body a) && negb (has_key_ci TRANSFER_ENCODING h1)) H_CONTENT_LENGTH
+                 (dec_of_N (len (or_empty (ra_body a)))) h1).
+  set (h2 := cond_put _ H_CONTENT_LENGTH _ h1).
+  assert (E : (if negb (has_key_ci L_USER_AGENT h1) && negb (ra_noua a) then h2 ++ [(H_USER_AGENT, ua)] else h2) =
+              cond_put (negb (has_key_ci L_USER_AGENT h1) && negb (ra_noua a)) H_USER_AGENT ua h2).
+  { unfold cond_put at 1. destruct (has_key_ci L_USER_AGENT h1) eqn:U; [reflexivity|]. cbn [negb andb].
+    destruct (ra_noua a); [reflexivity|]. cbn [negb]. symmetry. apply put_ci_new.
+    change (lower H_USER_AGENT) with L_USER_AGENT. apply get_ci_none. unfold h2.
+    rewrite get_ci_cond_put. change (bytes_eqb L_USER_AGENT (lower H_CONTENT_LENGTH)) with false.
+    rewrite andb_false_r. apply get_ci_none. now apply has_key_ci_false. }
+  rewrite E. reflexivity.
+Qed.
+
+Lemma all_digits_ok_value l : l <> [] -> all_digits l = true -> ok_value l = true.
+Proof.
+  intros Hne Hd. unfold ok_value. apply andb_true_iff. split.
+  - apply forallb_forall. intros x Hx. pose proof (is_digit_range _ (forallb_In _ _ _ Hd Hx)) as R.
+    unfold CR, LF. destruct (N.eqb_spec x 13); [lia|]. destruct (N.eqb_spec x 10); [lia|]. reflexivity.
+  - destruct l as [|x t]; [congruence|]. unfold stripped. apply andb_true_iff. split; apply negb_true_iff, digit_not_ws.
+    + cbn [all_digits forallb] in Hd. now apply andb_true_iff in Hd as [? _].
+    + apply (forallb_In _ _ _ Hd). destruct (exists_last (l := x :: t)) as (l' & y & E); [discriminate|].
+      rewrite E, last_last. apply in_or_app. right. now left.
+Qed.
+
+Lemma dec_ok_value n : ok_value (dec_of_N n) = true.
+Proof. destruct (dec_of_N_spec n) as (H1 & H2 & _). now apply all_digits_ok_value. Qed.
+
+Lemma wire_or_empty (b : option bytes) : (if truthy b then or_empty b else []) = or_empty b.
+Proof. destruct b as [[|x t]|]; reflexivity. Qed.
+
+Lemma len_Z (l : bytes) : Z.of_N (len l) = Z.of_nat (length l).
+Proof. unfold len. apply nat_N_Z. Qed.
+
+(* from the boolean framing guard on the caller's arguments to the framing of the final header map *)
+Lemma framing_from_args h0 hs bd builder_cl :
+  args_framing_ok h0 bd builder_cl = true ->
+  get_ci TRANSFER_ENCODING hs = get_ci TRANSFER_ENCODING h0 ->
+  get_ci CONTENT_LENGTH hs =
+    (if builder_cl && negb (has_key_ci TRANSFER_ENCODING h0)
+     then Some (if truthy bd then dec_of_N (len (or_empty bd)) else [48]) else get_ci CONTENT_LENGTH h0) ->
+  (builder_cl = true -> truthy bd = false -> bd = bd) ->
+  framing_rel hs (or_empty bd) (Grammar.expected_body hs bd).
+Proof.
+  intros Ha Hte Hcl _. unfold framing_rel, Grammar.expected_body. rewrite Hte, Hcl.
+  unfold args_framing_ok in Ha. rewrite has_key_ci_get.
+  destruct (get_ci TRANSFER_ENCODING h0) as [te|] eqn:TE.
+  - rewrite andb_false_r.
+    apply andb_true_iff in Ha as [Ha Hn]. apply andb_true_iff in Ha as [Ha Hc].
+    apply bytes_eqb_eq in Ha. apply negb_true_iff in Hn. rewrite has_key_ci_get in Hn.
+    destruct (get_ci CONTENT_LENGTH h0); [discriminate|].
+    destruct (is_chunked_body_inv _ Hc) as (s & Ws & Er & Ed).
+    split; [exact Ha|]. split; [reflexivity|]. exists s. rewrite Ed. now repeat split.
+  - rewrite andb_true_r. destruct builder_cl.
+    + destruct (truthy bd) eqn:T.
+      * split; [|reflexivity]. rewrite int10_dec_of_N.
+        -- now rewrite len_Z.
+        -- unfold len_ok in Ha. now apply Nat.leb_le.
+      * split; [|reflexivity]. destruct bd as [[|x t]|]; try discriminate; reflexivity.
+    + destruct (get_ci CONTENT_LENGTH h0) as [cl|].
+      * unfold cl_announces in Ha. destruct (int10 cl) as [z|] eqn:I; [|discriminate].
+        split; [|reflexivity]. destruct (truthy bd) eqn:T.
+        -- apply Z.eqb_eq in Ha. subst z. now rewrite len_Z.
+        -- apply Z.eqb_eq in Ha. subst z. destruct bd as [[|x t]|]; try discriminate; reflexivity.
+      * apply negb_true_iff in Ha. destruct bd as [[|x t]|]; try discriminate; split; reflexivity.
+Qed.
+
+Lemma join_sp3 a b c : join [SP] [a; b; c] = a ++ SP :: b ++ SP :: c.
+Proof. reflexivity. Qed.
+Lemma join_sp2 a b : join [SP] [a; b] = a ++ SP :: b.
+Proof. reflexivity. Qed.
+
+Lemma wf_arg_headers (h : option bdict) :
+  forallb ok_header (arg_headers h) = true -> nodup_ci (map fst (arg_headers h)) = true -> wfh (arg_headers h).
+Proof. intros H1 H2. split; [exact H1|now apply nodup_ci_NoDup]. Qed.
+
+(* C15_parse_build_request *)
+Theorem parse_build_request ua a u :
+  wf_req_args ua a = true -> from_bytes DEFAULT_ALLOWED_URL_SCHEMES (ra_url a) = Ok u ->
+  exists p, parse (new_parser REQUEST_PARSER) (build_request ua a) = Ok p /\
+    state p = COMPLETE /\ buffer p = None /\
+    method p = Some (ra_method a) /\ version p = Some (ra_version a) /\ purl p = Some u /\
+    is_https_tunnel p = bytes_eqb (ra_method a) CONNECT /\
+    (host p, port p, path p) = line_attributes (bytes_eqb (ra_method a) CONNECT) u /\
+    headers p = lift_headers (expected_request_headers ua a) /\
+    bodyb p = Grammar.expected_body (expected_request_headers ua a) (ra_body a).
+Proof.
+  intros W Hu. unfold wf_req_args in W.
+  repeat (apply andb_true_iff in W as [W ?]).
+  match goal with H : args_framing_ok _ _ _ = true |- _ => rename H into Hfr end.
+  match goal with H : (ra_noua a || ok_value ua) = true |- _ => rename H into Hua end.
+  match goal with H : match ra_ctype a with Some _ => _ | None => _ end = true |- _ => rename H into Hct end.
+  match goal with H : nodup_ci _ = true |- _ => rename H into Hnd end.
+  match goal with H : forallb ok_header _ = true |- _ => rename H into Hok end.
+  set (sl := ReqLine (ra_method a) (ra_url a) (ra_version a) u).
+  set (hs := expected_request_headers ua a).
+  assert (Eb : build_request ua a = render_start sl ++ CRLF ++ render_hdrs hs ++ CRLF ++ or_empty (ra_body a)).
+  { unfold build_request, build_http_request, build_http_pkt.
+    rewrite request_headers_spec, header_lines_render, join_sp3, wire_or_empty.
+    unfold sl, render_start. now rewrite <- !app_assoc. }
+  assert (Hs : start_ok DEFAULT_ALLOWED_URL_SCHEMES sl).
+  { unfold sl, start_ok, tok. repeat split; auto using no_sp_sp, no_crlf_cr. }
+  pose proof (wf_arg_headers _ Hok Hnd) as W0.
+  set (h0 := arg_headers (ra_headers a)) in *.
+  set (h1 := match ra_ctype a with Some ct => put_ci H_CONTENT_TYPE ct h0 | None => h0 end).
+  assert (W1 : wfh h1).
+  { unfold h1. destruct (ra_ctype a) as [ct|]; [apply wfh_put_ci; [exact W0|reflexivity|exact Hct]|exact W0]. }
+  assert (TE1 : get_ci TRANSFER_ENCODING h1 = get_ci TRANSFER_ENCODING h0).
+  { unfold h1. destruct (ra_ctype a); [|reflexivity]. now rewrite get_ci_put_ci. }
+  assert (CL1 : get_ci CONTENT_LENGTH h1 = get_ci CONTENT_LENGTH h0).
+  { unfold h1. destruct (ra_ctype a); [|reflexivity]. now rewrite get_ci_put_ci. }
+  pose proof (expected_request_headers_puts ua a) as Ep. cbv zeta in Ep. fold h0 h1 hs in Ep.
+  assert (Hw : wfh hs).
+  { rewrite Ep. apply wfh_cond_put; [|reflexivity|reflexivity].
+    apply wfh_cond_put; [|reflexivity|].
+    - apply wfh_cond_put; [exact W1|reflexivity|intros _; apply dec_ok_value].
+    - intros B. apply andb_true_iff in B as [_ B]. apply negb_true_iff in B. rewrite B in Hua. exact Hua. }
+  assert (Hf : framing_rel hs (or_empty (ra_body a)) (Grammar.expected_body hs (ra_body a))).
+  { apply (framing_from_args h0 hs (ra_body a) (truthy (ra_body a))); [exact Hfr| | |auto].
+    - rewrite Ep, !get_ci_cond_put.
+      change (bytes_eqb TRANSFER_ENCODING (lower H_CONNECTION)) with false.
+      change (bytes_eqb TRANSFER_ENCODING (lower H_USER_AGENT)) with false.
+      change (bytes_eqb TRANSFER_ENCODING (lower H_CONTENT_LENGTH)) with false.
+      rewrite !andb_false_r. exact TE1.
+    - rewrite Ep, !get_ci_cond_put.
+      change (bytes_eqb CONTENT_LENGTH (lower H_CONNECTION)) with false.
+      change (bytes_eqb CONTENT_LENGTH (lower H_USER_AGENT)) with false.
+      change (bytes_eqb CONTENT_LENGTH (lower H_CONTENT_LENGTH)) with true.
+      rewrite !andb_false_r, andb_true_r.
+      rewrite (has_key_ci_get TRANSFER_ENCODING h1), TE1, <- (has_key_ci_get TRANSFER_ENCODING h0).
+      destruct (truthy (ra_body a)) eqn:T; cbn [andb]; [|exact CL1].
+      destruct (has_key_ci TRANSFER_ENCODING h0); cbn [negb]; [exact CL1|reflexivity]. }
+  destruct (parse_rendered sl hs _ _ Hs Hw Hf) as (p & P & S1 & S2 & S3 & S4 & S5 & _).
+  exists p. rewrite Eb. split; [exact P|].
+  unfold start_fields, sl in S3. destruct S3 as (F1 & F2 & F3 & F4 & F5 & _ & _).
+  repeat apply conj; assumption.
+Qed.
+
+Lemma dec_of_Z_tok z : tok (dec_of_Z z).
+Proof.
+  assert (G : forall n, ~ In SP (dec_of_N n) /\ ~ In CR (dec_of_N n)).
+  { intros n. destruct (dec_of_N_spec n) as (_ & Hd & _).
+    split; intros Hi; pose proof (is_digit_range _ (forallb_In _ _ _ Hd Hi)) as R; unfold SP, CR in R; lia. }
+  unfold tok, dec_of_Z. destruct z as [|q|q]; try apply G.
+  destruct (G (N.pos q)) as [G1 G2]. split; intros [C|C]; try discriminate C; auto.
+Qed.
+
+(* C15_parse_build_response *)
+Theorem parse_build_response a :
+  wf_resp_args a = true ->
+  exists p, parse (new_parser RESPONSE_PARSER) (build_response_of a) = Ok p /\
+    state p = COMPLETE /\ buffer p = None /\
+    version p = Some (sa_version a) /\ code p = Some (dec_of_Z (sa_status a)) /\
+    reason p = (if truthy (sa_reason a) then sa_reason a else None) /\
+    headers p = lift_headers (expected_response_headers a) /\
+    bodyb p = Grammar.expected_body (expected_response_headers a) (sa_body a).
+Proof.
+  intros W. unfold wf_resp_args in W.
+  repeat (apply andb_true_iff in W as [W ?]).
+  match goal with H : args_framing_ok _ _ _ = true |- _ => rename H into Hfr end.
+  match goal with H : nodup_ci _ = true |- _ => rename H into Hnd end.
+  match goal with H : forallb ok_header _ = true |- _ => rename H into Hok end.
+  match goal with H : no_crlf (or_empty _) = true |- _ => rename H into Hrs end.
+  match goal with H : no_crlf (sa_version a) = true |- _ => rename H into Hv2 end.
+  rename W into Hv1.
+  set (rs := if truthy (sa_reason a) then Some (or_empty (sa_reason a)) else None).
+  set (sl := StatusLine (sa_version a) (dec_of_Z (sa_status a)) rs).
+  set (hs := expected_response_headers a).
+  assert (Eb : build_response_of a = render_start sl ++ CRLF ++ render_hdrs hs ++ CRLF ++ or_empty (sa_body a)).
+  { unfold build_response_of, build_http_response, build_http_pkt.
+    rewrite response_headers_spec, header_lines_render, wire_or_empty.
+    unfold sl, rs, render_start, bytes_of_Z. destruct (truthy (sa_reason a)); cbn [app].
+    - rewrite join_sp3. now rewrite <- !app_assoc.
+    - rewrite join_sp2. now rewrite <- !app_assoc. }
+  assert (Hs : start_ok DEFAULT_ALLOWED_URL_SCHEMES sl).
+  { unfold sl, start_ok. split; [split; auto using no_sp_sp, no_crlf_cr|]. split; [apply dec_of_Z_tok|].
+    unfold rs. destruct (truthy (sa_reason a)); [now apply no_crlf_cr|exact I]. }
+  pose proof (wf_arg_headers _ Hok Hnd) as W0.
+  set (h0 := arg_headers (sa_headers a)) in *.
+  set (clv := if truthy (sa_body a) then dec_of_N (len (or_empty (sa_body a))) else [48]).
+  assert (Ep : hs = cond_put (sa_close a) H_CONNECTION V_CLOSE
+                      (cond_put (negb (has_key_ci TRANSFER_ENCODING h0) && negb (sa_nocl a)) H_CONTENT_LENGTH clv h0))
+    by reflexivity.
+  assert (Hw : wfh hs).
+  { rewrite Ep. apply wfh_cond_put; [|reflexivity|reflexivity].
+    apply wfh_cond_put; [exact W0|reflexivity|]. intros _. unfold clv.
+    destruct (truthy (sa_body a)); [apply dec_ok_value|reflexivity]. }
+  assert (Hf : framing_rel hs (or_empty (sa_body a)) (Grammar.expected_body hs (sa_body a))).
+  { apply (framing_from_args h0 hs (sa_body a) (negb (sa_nocl a))); [exact Hfr| | |auto].
+    - rewrite Ep, !get_ci_cond_put.
+      change (bytes_eqb TRANSFER_ENCODING (lower H_CONNECTION)) with false.
+      change (bytes_eqb TRANSFER_ENCODING (lower H_CONTENT_LENGTH)) with false.
+      now rewrite !andb_false_r.
+    - rewrite Ep, !get_ci_cond_put.
+      change (bytes_eqb CONTENT_LENGTH (lower H_CONNECTION)) with false.
+      change (bytes_eqb CONTENT_LENGTH (lower H_CONTENT_LENGTH)) with true.
+      rewrite andb_false_r, andb_true_r. rewrite (andb_comm (negb (sa_nocl a))). reflexivity. }
+  destruct (parse_rendered sl hs _ _ Hs Hw Hf) as (p & P & S1 & S2 & S3 & S4 & S5 & _).
+  exists p. rewrite Eb. split; [exact P|].
+  unfold start_fields, sl in S3. destruct S3 as (F1 & F2 & F3 & _).
+  repeat apply conj; try assumption.
+  rewrite F3. unfold rs. destruct (sa_reason a) as [[|x t]|]; reflexivity.
+Qed.
+
+(* what the builders emit, byte for byte, in terms of the specification header map *)
+Theorem build_request_wire ua a :
+  build_request ua a =
+  ra_method a ++ [SP] ++ ra_url a ++ [SP] ++ ra_version a ++ CRLF ++
+  header_lines (expected_request_headers ua a) ++ CRLF ++ or_empty (ra_body a).
+Proof.
+  unfold build_request, build_http_request, build_http_pkt.
+  rewrite request_headers_spec, join_sp3, wire_or_empty. cbn [app].
+  repeat (rewrite <- app_assoc || rewrite <- app_comm_cons). reflexivity.
+Qed.
+
+Theorem build_response_wire a :
+  build_response_of a =
+  sa_version a ++ [SP] ++ dec_of_Z (sa_status a) ++
+  (if truthy (sa_reason a) then [SP] ++ or_empty (sa_reason a) else []) ++ CRLF ++
+  header_lines (expected_response_headers a) ++ CRLF ++ or_empty (sa_body a).
+Proof.
+  unfold build_response_of, build_http_response, build_http_pkt.
+  rewrite response_headers_spec, wire_or_empty. unfold bytes_of_Z.
+  destruct (truthy (sa_reason a)); cbn [app].
+  - rewrite join_sp3. cbn [app]. repeat (rewrite <- app_assoc || rewrite <- app_comm_cons). reflexivity.
+  - rewrite join_sp2. cbn [app]. repeat (rewrite <- app_assoc || rewrite <- app_comm_cons). reflexivity.
 Qed.
